@@ -110,6 +110,28 @@ func (r *Runner) execMacro(a Action) {
 		if a.Arg == 1 && len(nonvoters) > 0 {
 			r.feat("cutleader-keeps-nonvoters")
 		}
+	case "suffragecut":
+		// a follower loses its vote under this leader (committed), then the
+		// leader is cut off together with the non-voters: the demoted server
+		// still answers, but its answers are no voter's
+		li, L := r.leader()
+		if L == nil {
+			return
+		}
+		var voters []int
+		for _, s := range r.cfgOf(L).Servers {
+			for i, id := range r.ids {
+				if string(s.ID) == id && i != li && s.Suffrage == raft.Voter && r.live(i) != nil {
+					voters = append(voters, i)
+				}
+			}
+		}
+		if len(voters) >= 2 {
+			r.doMembership(L, "demote", voters[a.N%len(voters)], 0)
+			w.Advance(40*time.Millisecond, r.sample)
+			r.feat("follower-demoted-before-the-cut")
+		}
+		r.execMacro(Action{Op: "cutleader", N: 0, Arg: 1})
 	case "demotecut":
 		// the leader keeps just the majority it needs, then demotes itself: the
 		// new configuration (in force at once, not committable) has one voter
@@ -413,6 +435,42 @@ func (r *Runner) execMacro(a Action) {
 		r.exec(Action{Op: "heal"}) // the old request can be delivered now
 		w.Advance(20*time.Millisecond, r.sample)
 		r.feat("stale-installsnapshot-from-a-deposed-leader")
+	case "busydisk":
+		// the leader's disk is slow for a moment: its main thread sits in StoreLogs
+		// while its followers acknowledge what it wrote before; a membership
+		// change and commands are in flight when the leader is shut down, handed
+		// over or cut off - every call must still be answered
+		li, L := r.leader()
+		if L == nil || len(a.Set) < 3 {
+			return
+		}
+		r.busyDisk[li].Store(w.Now() + 60)
+		if a.Set[0]%2 == 0 {
+			for i := range r.ids {
+				if i != li && r.live(i) != nil {
+					r.doMembership(L, []string{"addnonvoter", "demote", "addvoter"}[a.Set[0]/2%3], i, 0)
+					break
+				}
+			}
+			w.Advance(time.Millisecond, r.sample)
+		}
+		r.doApply(L, 1+a.N, 0)
+		w.Advance(time.Duration(1+a.Set[1])*time.Millisecond, r.sample)
+		r.doApply(L, 2, 0)
+		w.Advance(time.Duration(1+a.Set[1]/2)*time.Millisecond, r.sample)
+		switch a.Set[2] % 3 {
+		case 0:
+			r.doShutdown(L)
+		case 1:
+			r.doTransfer(L, -1)
+		default:
+			r.exec(Action{Op: "isolate", Srv: li})
+		}
+		r.feat("leader-with-a-slow-disk-leaves-with-calls-in-flight")
+		w.Advance(100*time.Millisecond, r.sample)
+		if a.Set[2]%3 == 2 {
+			r.exec(Action{Op: "heal"})
+		}
 	case "restoreinflight":
 		// a user Restore arrives while several Apply calls are dispatched and not
 		// yet committed (the followers' answers are a moment late); the leader
